@@ -1,1 +1,2 @@
 import CrsProps.C13
+import CrsProps.C14
